@@ -2,11 +2,24 @@
   A concrete instance of the PANOC loop model over ℚ, used by the non-vacuity `example`s of
   `Props/C05.lean`, `Props/C06_Panoc.lean`, `Props/C19_Panoc.lean`:
   ψ(x) = ½‖x‖², no constraints, h = 0 (so the prox step is the gradient step), a direction provider
-  that never produces a direction (every step is the safeguarded one), `L₀ = 2`, `Lγ_factor = 19/20`.
+  that never produces a direction (every step is the safeguarded one), `L₀ = 2`, `Lγ_factor = 19/20`,
+  `L_max = 4` (so that `L_max ≤ L₀·2¹`: the fuel bound of `Proofs/PanocFuel` is met with `n = 1`,
+  `K = 9`, and with `n = 6` for `L₀ = 1/16`).
   The run from `x₀ = [1]` with tolerance ½ on `‖p‖∞/γ` takes two iterations.
+
+  Further instances (used by `Props/C03`, `C05`, `C06_Panoc`):
+  * `Pm` — `n = 1`, `m = 1`: `f = ½(x−2)²`, `g(x) = x ≤ 1` (`y = 0`, `Σ = 1` closed over), box
+    `C = [0, 3]` with the shipped prox step `C15.proxGradStep`;
+  * `dirNewton` — a provider whose `apply` always succeeds with `q = −∇ψ(x)` (the Newton step of `Pq`,
+    `Pbox`): the accelerated step `τ = 1` is accepted;
+  * `Pstuck` — an oracle modelling absorption (`x ⊕ p = x` although `p ≠ 0`): the iterate never moves,
+    the run ends `NoProgress`;
+  * `rlBounded` — a `RealLike ℚ` whose `isFinite` is `|q| < 1000` (any carrier with any `RealLike` is an
+    instance of the theorems): runs ending `NotFinite`, early and at a loop head.
 -/
 import Mathlib.Algebra.Order.Field.Rat
 import Alpaqa.Model.Panoc
+import Alpaqa.Model.C15
 
 namespace Alpaqa.Panoc.Example
 open Alpaqa Alpaqa.Panoc Alpaqa.Gen
@@ -31,9 +44,9 @@ def dirNoop : Direction Unit ℚ where
 def prq : Params ℚ :=
   { L0 := 2, lipEps := 1/1000000, lipDelta := 1/1000000000000, LgammaFactor := 19/20, maxIter := 3,
     minLsCoef := 1/256, lsUpdateFactor := 1/2, forceLinesearch := false, lsStrictness := 19/20,
-    Lmin := 1/100000, Lmax := 100000000, stopCrit := .FPRNorm, maxNoProgress := 10, qubTol := 0,
+    Lmin := 1/100000, Lmax := 4, stopCrit := .FPRNorm, maxNoProgress := 10, qubTol := 0,
     lsTol := 0, updateDirInCandidate := false, recomputeLastProx := false, eagerGradientEval := false,
-    alwaysOverwrite := true, tolerance := 1/2, lsFuel := 8 }
+    alwaysOverwrite := true, tolerance := 1/2, lsFuel := 70 }
 
 /-- the run with a stop flag that becomes visible at tick `t₀` (`none`: never) -/
 def stopAt : Option Nat → Nat → Bool
@@ -41,5 +54,54 @@ def stopAt : Option Nat → Nat → Bool
   | some t0, t => decide (t0 ≤ t)
 
 def rq (t0 : Option Nat) : Result ℚ Unit := run Pq dirNoop () prq (stopAt t0) false [1] [] [] [] [] 0 0
+
+/-- `ψ(x) = ½‖x‖²`, box `[-10, 10]`, prox = the shipped box step (`C15.proxGradStep`, no ℓ1 term). -/
+def Pbox : Problem ℚ where
+  psiGradPsi x := (sqNorm x / 2, x, [])
+  psi x := (sqNorm x / 2, [])
+  gradPsi x := x
+  gradL x _ := x
+  prox γ x g := C15.proxGradStep [] γ x g [-10] [10]
+
+/-- a provider that always offers `q = −∇ψ(x)` (for `ψ = ½‖x‖²` the exact Newton step) -/
+def dirNewton : Direction Unit ℚ where
+  init d _ _ _ _ _ := d
+  hasInitial _ := true
+  apply d _ _ _ _ g _ := (d, true, vneg g)
+  update d _ _ _ _ _ _ _ _ := (d, true)
+  changedGamma d _ _ := d
+  reset d := d
+
+/-- `Pbox` with the Newton provider from `x₀ = [1]`: iteration 0 accepts `τ = 1` and lands on the
+    minimiser, the next head converges. -/
+def rn (t0 : Option Nat) : Result ℚ Unit :=
+  run Pbox dirNewton () prq (stopAt t0) false [1] [] [] [] [] 0 0
+
+/-- `n = 1`, `m = 1`: `f(x) = ½(x−2)²`, `g(x) = x`, `D = (−∞, 1]`, multipliers `y = [0]`,
+    penalties `Σ = [1]` (closed over): `ŷ(x) = max(x − 1, 0)`, `ψ = f + ½ŷ²`, `∇ψ = x − 2 + ŷ`;
+    `C = [0, 3]` through the shipped prox step. -/
+def Pm : Problem ℚ where
+  psiGradPsi x := ((vget x 0 - 2) ^ 2 / 2 + (max (vget x 0 - 1) 0) ^ 2 / 2,
+    [vget x 0 - 2 + max (vget x 0 - 1) 0], [max (vget x 0 - 1) 0])
+  psi x := ((vget x 0 - 2) ^ 2 / 2 + (max (vget x 0 - 1) 0) ^ 2 / 2, [max (vget x 0 - 1) 0])
+  gradPsi x := [vget x 0 - 2 + max (vget x 0 - 1) 0]
+  gradL x yh := [vget x 0 - 2 + vget yh 0]
+  prox γ x g := C15.proxGradStep [] γ x g [0] [3]
+
+/-- runs of `Pm` from `x₀ = [1]`, `y = [0]`, `Σ = [1]`, `err_z` buffer `[7]` -/
+def rm (pr : Params ℚ) (t0 : Option Nat) : Result ℚ Unit :=
+  run Pm dirNoop () pr (stopAt t0) false [1] [0] [1] [7] [] 0 0
+
+/-- absorption: the prox step reports `p = [1]` but `x̂ = x` (what `x ⊕ p = x` does in floating point);
+    `ψ` constant: every safeguarded step is accepted and the iterate never moves. -/
+def Pstuck : Problem ℚ where
+  psiGradPsi x := (0, x.map fun _ => 0, [])
+  psi _ := (0, [])
+  gradPsi x := x.map fun _ => 0
+  gradL x _ := x.map fun _ => 0
+  prox _ x _ := (0, x, x.map fun _ => 1)
+
+/-- `isFinite q := |q| < 1000` -/
+def rlBounded : RealLike ℚ := ⟨id, fun _ => false, fun q => decide (|q| < 1000)⟩
 
 end Alpaqa.Panoc.Example
